@@ -26,9 +26,40 @@ def vote_sites(prog, kind):
     return out
 
 
+def ob_prune_boundary(run, oid):
+    """what the Votor forgets and what it still reacts to must meet at one boundary"""
+    prog = run.program("lib")
+    o = run.ob(oid, "Votor::prune discards exactly the slots below first_unpruned_slot(), the boundary below which should_ignore_pool_event drops events",
+               "if per-slot voting state (voted, voted_notar, retired) is dropped for a slot whose events are still handled, a late SafeToSkip / SafeToNotar / timeout finds a blank "
+               "state and the node votes again in a slot it already voted (or even finalized) in", floor=2)
+    b = prog.body(VOTOR + "Votor::prune")
+    if b is None:
+        # prune folded into its caller(s): the discard step is wherever Votor.slots is split / retained
+        cands = [x for d, x in prog.bodies.items() if d.startswith(VOTOR + "Votor::") and not x.generated and any(
+            c.name.rsplit("::", 1)[-1] in ("split_off", "retain") and c.args and K.mentions_field(x.operand_term(c.args[0]), "slots", "Votor") for c in x.calls())]
+        if len(cands) != 1:
+            o.missing("Votor::prune")
+            return o
+        b = cands[0]
+    so = [c for c in b.calls() if c.name.rsplit("::", 1)[-1] in ("split_off", "retain") and c.args and K.mentions_field(b.operand_term(c.args[0]), "slots", "Votor")]
+    o.check(len(so) == 1, "Votor::prune|one-discard", "one discard step", b.span, {"found": len(so)})
+    for c in so:
+        if c.name.endswith("split_off"):
+            kt = K.peel(b.operand_term(c.args[1]))
+            ok = isinstance(kt, tuple) and kt and kt[0] == "call" and kt[1] == VOTOR + "Votor::first_unpruned_slot" and len(kt[2]) == 1
+            o.check(ok, "Votor::prune|split_off|at-first_unpruned_slot", "split_off(&self.first_unpruned_slot()): the key is that helper's value, unmodified", c.span, {"key": mir.show(kt)[:100]})
+    ig = prog.body(VOTOR + "Votor::should_ignore_pool_event")
+    if ig is None:
+        o.missing("Votor::should_ignore_pool_event")
+    else:
+        o.check(bool(ig.calls_to(VOTOR + "Votor::first_unpruned_slot")), "should_ignore_pool_event|same-boundary", "should_ignore_pool_event compares with first_unpruned_slot() as well", ig.span)
+    return o
+
+
 def check(run, prefix="O5"):
     from . import slots as _SL
     _SL.ob_slot_arithmetic(run, prefix + ".13")
+    ob_prune_boundary(run, prefix + ".15")
     from . import detectors as _DL
     _DL.ob_loop_exits(run, prefix + ".12", ['consensus::votor'], 'the voting rules are applied to every pending slot / block of a window: a loop that stops early leaves slots unvoted')
     # "fallback votes only after the safe-to-notar / safe-to-skip condition held at that node": the Votor acts on the pool's events,
